@@ -393,6 +393,7 @@ theorem SysInv.step_join {s : Sys} (h : SysInv s) (n m : String) (rd : Bool) (no
             (SyncerSpec.trace_live_of_notLive n _ _ (fun x hx => (hap.2 x hx).2))
             (fun x hx => (hap.2 x hx).1) hap.1 ?_).1
           · simp [Sys.gossip, Net.step, hn, hm, hnm, Net.setNode]
+            rfl
           · intro k
             have : (s.gossip (.join n m true now)).side =
                 Sys.feed (s.gossip (.join n m false now)).side n
